@@ -244,6 +244,29 @@ def http_no_match(chk, prog, cfg):
                        "an unrouted request is not answered with the error handler's 404", where=b.where(g), cfg=cfg)
 
 
+def fresh_lookup(chk, prog, cfg):
+    """R6: in the connection loop the handler that serves a request comes from the route lookup made for that request
+    and from nothing else (no handler remembered from an earlier request on the connection)."""
+    from . import c01
+    n = 0
+    for b in c01.find_loops(prog):
+        for blk, t in b.calls_to(r"handler_traits::RequestHandler::serve$"):
+            n += 1
+            l = core.op_local(t["args"][0])
+            prods = core.slice_back(prog, b, l, transparent_extra=[r"Option::<T>::(unwrap|expect|as_ref|copied|cloned)$"])
+            calls = sorted(set(p.name() for p in prods if p.kind == "call"))
+            others = [c for c in calls if not c.endswith("::get_handler")]
+            reqs = []
+            for p in prods:
+                if p.kind == "call" and p.name().endswith("::get_handler"):
+                    reqs.append(core.describe(prog, b, p.data["args"][0]))
+            same_req = all(desc_contains(r, lambda y: y[0] == "call" and core.re.search(r"Request::from_stream", y[1]) is not None) for r in reqs) and bool(reqs)
+            chk.ob("R6.fresh_lookup", b.path, "the serving handler derives only from get_handler(<this request>)", not others and same_req,
+                   f"the handler that serves the request also flows from {others}: the choice can depend on an earlier request on the connection, "
+                   f"not only on this request's Host, path and the registration order", where=b.where(blk), cfg=cfg)
+    chk.floor(f"handler serve sites in the connection loop [{cfg}]", n, 1)
+
+
 def run(chk):
     chk.explanation = (
         "Static decision of the routing rule's structural clauses on the four lookup functions (get_handler, call_websocket_handler; threaded [A] "
@@ -262,6 +285,7 @@ def run(chk):
         route_for_string(chk, prog, cfg)
         registration(chk, prog, cfg)
         http_no_match(chk, prog, cfg)
+        fresh_lookup(chk, prog, cfg)
     for k in sorted(set(facts["A"]) | set(facts["B"])):
         va, vb = facts["A"].get(k), facts["B"].get(k)
         chk.ob("R.sibling", "routing[A] vs routing[B]", f"{k[0]}: {k[1]}", va == vb, f"threaded: {va}, tokio: {vb}")
